@@ -132,7 +132,9 @@ def unit_pump(mode, tpm_type_name="Command", root="default"):
     u = UnitResult(label)
     u.functions = FUNCS
     strict = mode == "strict"
-    tpm_type = {"Command": Command, "CommandResponseStream": CommandResponseStream}[tpm_type_name]
+    from tpmstream.spec.commands import Response
+
+    tpm_type = {"Command": Command, "CommandResponseStream": CommandResponseStream, "Response": Response}[tpm_type_name]
     site = "marshal.py:marshal"
 
     def run(ctx):
@@ -275,7 +277,9 @@ def unit_pump(mode, tpm_type_name="Command", root="default"):
         I = Interp(ctx, stubs=stubs, loop_specs=loops)
         I.models_sym_method_hook = None
         kw = {"abort_on_error": strict}
-        cc_in = object()
+        # (a response is decoded with a command code supplied by the caller; here one outside the table: whatever is wrong with
+        # it is the processor's to report - with the bytes it has not consumed - not the pump's)
+        cc_in = object() if tpm_type_name != "Response" else 0x20000123
         pe_in = object()
         if root != "default":
             kw["root_path"] = root_path
